@@ -381,6 +381,11 @@ func propC12(c *Ctx) {
 		c.Check(rc, "checkCyclicImports walks the parent chain", l.Pos(chk.Pos()), walks, "recurses / loops along Compiler.parent", "the cycle check does not follow the chain of importing compilers: cycles longer than one step are missed")
 	}
 
+	rfp := c.Rule("fork-parent", "every compiler fork records the forking compiler as its parent on every path (the cyclic-import check walks this chain)", 2)
+	ruleForkParent(c, rfp)
+	rod := c.Rule("operand-decode", "every multi-byte operand the VM reads (module indexes among them) is assembled big-endian from adjacent bytes, as the compiler encodes it", 10)
+	ruleOperandDecode(c, rod, vf, "")
+
 	// name-canonical: the file importer's module key is canonical
 	rn := c.Rule("name-canonical", "the file importer derives the module key from filepath.Abs of the joined path: one file reached by two relative paths must be one module", 1)
 	nm := l.Method(modPath+"/importers", "FileImporter", "Name")
@@ -611,6 +616,10 @@ func propC10(c *Ctx) {
 	rg := c.Rule("cache-grow", "VM.Run only appends to an existing module cache (the Eval session installs the modules earlier fragments loaded)", 1)
 	ruleCacheGrow(c, rg, vf)
 
+	rlv := c.Rule("locals-verbatim", "GetLocals hands the stack slots to the next fragment verbatim, pointer boxes of captured variables included", 1)
+	ruleLocalsVerbatim(c, rlv, vf)
+	rgp := c.Rule("globals-persist", "an Eval session always holds a non-nil globals object of its own, so every fragment runs with the same globals", 1)
+	ruleGlobalsPersist(c, rgp)
 	rsd := c.Rule("shadow-define", "every way of defining a name in a symbol table records that it shadows a builtin of the same name (the persistent symbol table is how a later fragment's optimizer knows an earlier fragment redefined len, int, string, ...)", 4)
 	ruleShadowDefine(c, rsd)
 }
